@@ -46,6 +46,11 @@ func genLossCfg(t *rapid.T, algos []string) LimitCfg {
 
 func genC06(t *rapid.T) c06Case {
 	c := c06Case{Cfg: genLossCfg(t, []string{"aimd", "vegas", "gradient"})}
+	c.Cfg.Listener = rapid.IntRange(0, 2).Draw(t, "withListener") == 0
+	if rapid.IntRange(0, 3).Draw(t, "behindTraced") == 0 {
+		// the algorithm behind the traced wrapper (a pass-through: every sample must reach it unchanged)
+		c.Cfg.Traced, c.Cfg.TraceDebug = true, rapid.Bool().Draw(t, "traceDebug")
+	}
 	if c.Cfg.Algo == "vegas" && rapid.IntRange(0, 4).Draw(t, "customNoLoad") == 0 {
 		c.Cfg.NoLoad = "single" // a caller-supplied baseline measurement (latest value): drops must still bring the limit down
 	}
